@@ -33,9 +33,12 @@ var c11Files = map[string]string{
 	"nt2.fa":   ">s1\nACGT\n>s2\nAC-T\n>s5\nTTTT\n",
 	"tie.fa":   ">a\nACGT-N\n>b\nCAGT-N\n>c\nACTG-A\n>d\nCATGNA\n",
 	"aa.fa":    ">p1\nMAKWL-\n>p2\nMAKWLL\n>p3\nMGKWIL\n",
-	"unal.fa":  ">u1\nCCATGGCTTGGTAAGG\n>u2\nATGGCTTGGTAA\n>u3\nGATGGCATGGTAAC\n>u4\nCCTTACCAAGCCATGG\n",
+	// the ORF ATGCTTTGGTAA translates to MLW*: L is a protein-only letter, so the pairwise aligner reads it as a protein
+	"unal.fa": ">u1\nCCATGCTTTGGTAAGG\n>u2\nATGCTTTGGTAA\n>u3\nGATGCTATGGTAAC\n>u4\nCCTTACCAAAGCATGG\n",
+	// here the ORF ATGGCTTGGTAA translates to MAW*, which goalign reads as nucleotides: every alignment fails on '*'
+	"unalerr.fa": ">u1\nCCATGGCTTGGTAAGG\n>u2\nATGGCTTGGTAA\n>u3\nGATGGCATGGTAAC\n>u4\nCCTTACCAAGCCATGG\n",
 	"pair.fa":  ">q1\nACGTTGCA\n>q2\nCGTAGC\n",
-	"orf.fa":   ">orf\nATGGCTTGGTAA\n",
+	"orf.fa":   ">orf\nATGCTTTGGTAA\n",
 	"multi.ph": "   3   6\nx1  ACGTAC\nx2  ACG-AC\nx3  TCGTAA\n   3   4\nx1  ACGT\nx2  AC-T\nx3  TCGA\n",
 	// the second alignment announces 3 sequences of 4 sites but holds a short row
 	"multibad.ph": "   3   6\nx1  ACGTAC\nx2  ACG-AC\nx3  TCGTAA\n   3   4\nx1  ACGT\nx2  AC\nx3  TCGA\n",
@@ -146,6 +149,7 @@ func c11Scenarios() []c11Scenario {
 	// --- phasing, ORF, pairwise alignment, translation
 	add("phase", false, true, "phase", "--unaligned", "-i", "@unal.fa", "--aa-output", "aa.out", "-l", "log.out")
 	add("phase-ref-rev", false, true, "phase", "--unaligned", "--reverse", "--cut-end", "--ref-orf", "@orf.fa", "-i", "@unal.fa")
+	add("phase-alignment-error", false, true, "phase", "--unaligned", "-i", "@unalerr.fa")
 	add("phasent", false, true, "phasent", "--unaligned", "-i", "@unal.fa", "--aa-output", "aa.out", "--nt-output", "nt.out")
 	add("orf", false, false, "orf", "--unaligned", "-i", "@unal.fa")
 	add("orf-reverse", false, false, "orf", "--reverse", "--unaligned", "-i", "@unal.fa")
@@ -444,6 +448,17 @@ func c11Explore(c *mc.Ctx, r c11Run) {
 			c.Sample(map[string]any{"scenario": sc.Name, "args": sc.Args, "seed": r.Seed, "threads": r.Threads, "choices": x.Choices(), "exit": obs.Exit, "stdout": c11Short(obs.Stdout)})
 		}
 	}
+	if r.Bound < 0 && r.Choices == nil { // default execution only
+		x := ex.RunOnce(nil)
+		c.Eval()
+		c.Transition(int64(len(x.Exec.Points)))
+		c.State(int64(len(x.Exec.Points) + 1))
+		ex.Executions = 3
+		ex.Check(x)
+		c.Count("runs_instrumented", 1)
+		c.Count("default_only_runs", 1)
+		return
+	}
 	if r.Choices != nil { // replay of one recorded execution
 		x := ex.RunOnce(r.Choices)
 		c.Eval()
@@ -454,6 +469,9 @@ func c11Explore(c *mc.Ctx, r c11Run) {
 	complete := ex.Explore()
 	c.Count("runs_instrumented", ex.Executions)
 	c.Count("trees", 1)
+	if os.Getenv("C11_PROFILE") != "" {
+		c.Count(fmt.Sprintf("tree_runs:%s/t%d", sc.Name, r.Threads), ex.Executions)
+	}
 	if !complete {
 		c.Count("trees_capped", 1)
 	}
@@ -626,7 +644,7 @@ func init() {
 	mc.Register(&mc.Prop{
 		ID:    "C11",
 		Level: "model_checking",
-		Rule: "subprocess-mode exploration of the goalign binary instrumented from the current tree: for each of the listed command scenarios (every documented command family, 1-3 flag sets each, on small nucleotide / protein / multi-Phylip / malformed-second-alignment inputs) x seeds {1,7} (randomised commands) x --threads {1,2,16} (threaded commands): the default execution, then EVERY execution within 1 (quick) / 2 (thorough) deviations from it — a deviation is one preemption at a channel/mutex/WaitGroup/spawn operation, one non-sorted iteration order at a ranged map, or one clock step at time.Now — must give exactly the bytes (stdout, exit status, every file written) of the default one-thread execution, end normally, and show no data race (vector clocks). " +
+		Rule: "subprocess-mode exploration of the goalign binary instrumented from the current tree: for each of the listed command scenarios (every documented command family, 1-3 flag sets each, on small nucleotide / protein / multi-Phylip / malformed-second-alignment inputs) x seeds {1,7} (randomised commands) x --threads {1,2,3,16} (threaded commands): the default execution, then EVERY execution within 1 (quick) / 2 (thorough) deviations from it (with 16 threads: the default execution only) — a deviation is one preemption at a channel/mutex/WaitGroup/spawn operation, one non-sorted iteration order at a ranged map, or one clock step at time.Now — must give exactly the bytes (stdout, exit status, every file written) of the default one-thread execution, end normally, and show no data race (vector clocks). " +
 			"Reformat chains: ALL format sequences of <=3 conversions among fasta/phylip/nexus/clustal that return to the starting format, on 4 inputs, must return the starting bytes; build distboot == build seqboot + compute distance for 4 models x 2 seeds. Each scenario also runs on the uninstrumented binary and on the instrumented binary in pass-through mode (must agree). states/transitions = nodes/edges of the choice trees; distinct_nontrivial = distinct (scenario, seed, threads, choice list) executions compared.",
 		Assumptions: []string{
 			"scheduling points only at synchronisation operations (channel, mutex, WaitGroup, go); data races are reported separately by vector clocks",
@@ -646,13 +664,15 @@ func init() {
 				}
 				threads := []int{1}
 				if sc.Threads {
-					threads = []int{1, 2, 16}
+					threads = []int{1, 2, 3, 16}
 				}
 				for _, sd := range seeds {
 					for _, th := range threads {
 						r := c11Run{Scenario: sc.Name, Seed: sd, Threads: th, Bound: bound}
-						if th == 16 && bound > 1 {
-							r.Bound = 1
+						if th == 16 {
+							// 16 workers: the default execution only (compared with the one-thread bytes):
+							// even the free choices among 16 runnable workers make the tree explode
+							r.Bound = -1
 						}
 						ts = append(ts, mc.Task{Name: fmt.Sprintf("explore#%s/seed%d/t%d", sc.Name, sd, th), Run: func(c *mc.Ctx) { c11Explore(c, r) }})
 						rp := r
